@@ -6,12 +6,12 @@ Order3 == <<"A", "B", "C">>
 Hooks_life == ("A" :> {"eval", "start", "stop"}) @@ ("B" :> {"stop"})
 Hooks_none2 == ("A" :> {}) @@ ("B" :> {})
 Hooks_none3 == ("A" :> {}) @@ ("B" :> {}) @@ ("C" :> {})
-Flags_none == [m \in Mods |-> {}]
+Flags_none == [m \in Mods |-> <<{}>>]
 Hooks_ps3 == ("A" :> {}) @@ ("B" :> {"stop"}) @@ ("C" :> {})
 Hooks_sys == ("A" :> {"start"}) @@ ("B" :> {})
 Hooks_ctx == ("A" :> {"stop"}) @@ ("B" :> {"eval"})
 \* C15: A may be replaced and is persistent; B is denied everything
-Flags_perm == ("A" :> {"REPLACE", "PERSIST"}) @@ ("B" :> {"DENYCTX", "DENYPUB", "DENYSUB"})
+Flags_perm == ("A" :> <<{"REPLACE", "PERSIST"}, {}>>) @@ ("B" :> <<{"DENYCTX", "DENYPUB", "DENYSUB"}>>)
 Hooks_perm == ("A" :> {"start"}) @@ ("B" :> {"start", "stop"})
-Flags_perm2 == ("A" :> {"REPLACE"}) @@ ("B" :> {"DENYCTX"})
+Flags_perm2 == ("A" :> <<{"REPLACE"}, {}>>) @@ ("B" :> <<{"DENYCTX"}>>)
 =============================================================================
